@@ -637,9 +637,15 @@ pub fn c12_native<G: AffineRepr + 'static>(maxcap: usize) -> Checks {
                 // serialisation round trip
                 let mut bytes = vec![];
                 g.serialize_compressed(&mut bytes).unwrap();
-                if let Ok(g2) = BulletproofGens::<G>::deserialize_compressed(&bytes[..]) {
+                if let Ok(mut g2) = BulletproofGens::<G>::deserialize_compressed(&bytes[..]) {
                     for j in 0..parties {
                         ok &= g2.share(j).verif_G(m) == direct.share(j).verif_G(m) && g2.share(j).verif_H(m) == direct.share(j).verif_H(m);
+                    }
+                    // a decoded object grows like a fresh one
+                    g2.increase_capacity(m + 2);
+                    let bigger = BulletproofGens::<G>::new(m + 2, parties);
+                    for j in 0..parties {
+                        ok &= g2.share(j).verif_G(m + 2) == bigger.share(j).verif_G(m + 2) && g2.share(j).verif_H(m + 2) == bigger.share(j).verif_H(m + 2);
                     }
                 } else {
                     ok = false;
